@@ -267,6 +267,10 @@ CORPUS = [
     ("text/vcard", (VC % b"") + b"BEGIN:VCARD\r\nVERSION:3.0\r\nFN:x\r\n", False),      # + a truncated second card
     ("text/vcard", (VC % b"") + b"and some text\r\n", False),                           # + arbitrary text
     ("text/vcard", b"NOTE:before\r\n" + (VC % b""), False),                             # a content line before BEGIN
+    # a well-formed object of the OTHER kind (only this direction: a vCard sent as text/calendar is a BEGIN/END
+    # component the icalendar parser reads, ICalendarFile.validate does not look at the top-level name, and the
+    # statement's invalid classes do not list it - recorded in DESIGN.md as not claimed)
+    ("text/vcard", IC % b"SUMMARY:ok\r\n", False),
 ]
 
 
@@ -291,23 +295,32 @@ def body_corpus(i, backend_vdir):
         ns = _PRISTINE
         d = tempfile.mkdtemp(prefix="xv-c14-")
         try:
+          # validity is a function of (media type, body) alone: the same verdict on an empty collection and on one
+          # that already holds these very bytes as a member of a kind that is never validated (text/plain)
+          # (git only: a vdir collection lists nothing but *.ics / *.vcf, and has no object store to confuse)
+          for held in ((False,) if backend_vdir else (False, True)):
             if backend_vdir:
-                store = ns["vdir"].VdirStore.create(d + "/c")
+                store = ns["vdir"].VdirStore.create(d + "/c%d" % held)
             else:
                 store = ns["git"].BareGitStore.create_memory()
             store.load_extra_file_handler(ns["icalendar"].ICalendarFile)
             store.load_extra_file_handler(ns["vcard"].VCardFile)
+            others = []
+            if held:
+                store.import_one("p.txt", "text/plain", [body], message="m0")
+                others = ["p.txt"]
             name = "x.vcf" if ctype == "text/vcard" else "x.ics"
             try:
                 (n, etag) = store.import_one(name, ctype, [body], message="m")
                 accepted = True
             except ns["store"].InvalidFileContents:
                 accepted = False
-            listing = [n for (n, ct, e) in store.iter_with_etag()]
+            listing = sorted(n for (n, ct, e) in store.iter_with_etag())
             if not good:
-                ok = (not accepted) and listing == []
-                return (bool(ok), "invalid")
-            if not accepted or listing != [name]:
+                if accepted or listing != others:
+                    return (False, "invalid" + (":held" if held else ""))
+                continue
+            if not accepted or listing != sorted(others + [name]):
                 return (False, "valid-refused")
             served = b"".join(store.get_file(name, ctype).content)
             # "can always be ... served": as calendar-data / address-data the bytes are decoded as UTF-8 and carried
@@ -324,7 +337,9 @@ def body_corpus(i, backend_vdir):
                 c1 = store.get_ctag()
                 store.import_one(name, ctype, [served], message="m3")
                 ok = ok and store.get_ctag() == c1
-            return (bool(ok), "valid")
+            if not ok:
+                return (False, "valid")
+          return (True, "valid" if good else "invalid")
         finally:
             shutil.rmtree(d, ignore_errors=True)
 
